@@ -121,7 +121,7 @@ func checkC17(p *Program, r *Result) {
 		"(C17.c) for each record kind the read tool emits, the snake_cased exported fields of the Go struct it marshals (minus the tool's exclusions) are exactly the field names the vectors list for that type, and the type names agree; " +
 		"(C17.d) the writer emits summary groups in an order consistent with every expectation vector; " +
 		"(C17.o) the bytes Lexer.Next returns are a slice of the caller's buffer or freshly allocated (the read tool calls Next(nil) and keeps what it parsed from the result); " +
-		"(C17.e) the writer/parser rules that the expected offsets, lengths, statistics and padded records depend on (C05 layout and pointers, C08 counters, C11 parser tolerance) hold."
+		"(C17.e) the writer/parser rules that the expected offsets, lengths, statistics and padded records depend on (C05 layout and pointers, C06 checksum scopes, C08 counters, C11 parser tolerance) hold."
 	r.NotDecided = []string{"byte equality of the produced files and of the printed record streams (run-time)", "CRC values listed in the expectations"}
 	r.rule("C17.a", "feature -> writer option table is total and correct", 10)
 	r.rule("C17.b", "every input record type and field has a handler", 20)
@@ -158,6 +158,7 @@ func checkC17(p *Program, r *Result) {
 	sub := newResult("C17", "sub")
 	checkC05(p, sub)
 	checkC08(p, sub)
+	checkC06(p, sub)
 	g := newGoLayouts(p, pkgMcap)
 	checkParserTolerance(p, sub, g)
 	for _, o := range sub.Obls {
